@@ -358,6 +358,16 @@ class Body:
                 out.append(d)
         return out
 
+    def provenance_all(self, o):
+        """provenance with every call argument rendered (`f(a, b)`), not only the receiver"""
+        self._allargs = True
+        try:
+            return self.provenance(o)
+        finally:
+            self._allargs = False
+
+    _allargs = False
+
     def provenance(self, o, uid=False):
         """like opath but expands named locals through their single defining call.
         uid=True tags every non-identity call with its block (`get_u8#bb7(..)`), so that values
@@ -429,6 +439,8 @@ class Body:
                     if a["c"] in ("copy", "move"):
                         return self.place_path(a["p"], deep, depth + 1, seen)
                 tag = ("#bb%d" % d[1]) if (self._uid and FRESH_VALUE_CALL.match(c.name or "")) else ""
+                if self._allargs and c.args:
+                    return "%s%s(%s)" % (c.callee, tag, ", ".join(self._opath_d(a, depth + 1, seen) for a in c.args))
                 if c.args and c.args[0]["c"] in ("copy", "move"):
                     return "%s%s(%s)" % (c.callee, tag, self.place_path(c.args[0]["p"], deep, depth + 1, seen))
                 return "%s%s()" % (c.callee, tag)
